@@ -114,6 +114,8 @@ def check(run):
             bad('decided-before-start', 'a candidate is already decided at the first action', first.idx)
         if run.complete and snaps[-1].tag != 'end':
             bad('record-does-not-end-with-end', 'last action is %s' % snaps[-1].tag, snaps[-1].idx)
+        elif run.complete and run.events[-1].tag != 'end':
+            bad('record-continues-after-end', 'the record goes on after the end of the count: %s %r' % (run.events[-1].tag, run.events[-1].msg), run.events[-1].idx)
     vstate = None
     prev = None
     defeat_since_round = False
